@@ -110,6 +110,31 @@ def check_elementwise(ctx: Ctx, rnd, tier):
                 break
 
 
+def check_tails(ctx: Ctx):
+    """Far ends of the domains (a positive parameter of 1e-9 .. 1e-16 sits at x = -20 .. -37 under a soft-plus link): the reported
+    log-Jacobian against the numerically stable closed form of Transforms.tla's rule, in double and single precision."""
+    import torch
+    tails = {"real": [[-36.0, -20.0, -12.0], [-30.0], [25.0, 30.0], [-15.0, 20.0, -25.0]], "positive": [[1e-12, 3e-9], [1e9, 1e12], [1e-6, 1e6]]}
+    for name, tr, dom in shipped_transforms():
+        if name in ("AffineTransform", "StickBreakingTransform"):
+            continue
+        for xs in tails[dom]:
+            for dtype, tol in ((torch.float64, 1e-9), (torch.float32, 2e-5)):
+                x = torch.tensor(xs, dtype=dtype)
+                ctx.add("evaluations")
+                ctx.distinct(("tail", name, tuple(xs), str(dtype)))
+                try:
+                    rep = float(tr.log_abs_det_jacobian(x, tr(x)).sum())
+                except Exception as e:
+                    ctx.violation(f"C07:{name}:raises", f"{name} at x={xs} ({dtype}): {type(e).__name__}: {e}", {"transform": name, "x": xs})
+                    break
+                cf = closed_form(name, [float(v) for v in x.double().tolist()])
+                if not math.isfinite(rep) or abs(rep - cf) > tol * max(1.0, abs(cf)):
+                    ctx.violation(f"C07:{name}:log-jacobian:tail", f"{name} at x={xs} ({str(dtype).split('.')[-1]}): reported log|det J| {rep!r}, closed form {cf!r}",
+                                  {"transform": name, "x": xs, "dtype": str(dtype)})
+                    break
+
+
 def check_tree_cases(ctx: Ctx, cases):
     import torch
     groups = {}
@@ -319,6 +344,9 @@ def run(ctx: Ctx):
     check_inplace_protocol(ctx, allcases + big, rnd)
     check_rate_transform(ctx, allcases + big[:10], rnd)
     check_elementwise(ctx, rnd, ctx.tier)
+    check_tails(ctx)
+    from . import c06
+    c06.check_smooth_difference(ctx, rnd, ctx.tier)      # the inverse clause for the smooth-max difference transform
     check_transformed_parameter(ctx, rnd)
     ctx.cov["rule"] = ("tree transforms: TLC-emitted cases with exact determinants; other transforms: lattice + random points; every case compares the reported "
                        "log-Jacobian with the autodiff Jacobian / exact determinant and applies inverse(forward); non-trivial = heterochronous dates or random point")
